@@ -135,4 +135,8 @@ def run(ctx):
     cov["evaluations"] = cov.get("evaluations", 0) + len(events)
     cov["agent_scenarios"] = [s["name"] for s in scs][:12]
     ctx.sample({"scenario": scs[0]["name"], "steps": scs[0]["steps"], "expect_idle": scs[0]["expect_idle"]})
+    # two hosts: master + slave with name-by-name rsync, forwarded upgrades and configuration roll-out (Sync.tla)
+    import syncfam
+    syncfam.model(ctx, thorough)
+    syncfam.histories(ctx, 400 if thorough else 40, props={"C12", "C01", "C10", "C16"})
     ctx.assumptions += ["remote mode is exercised with an unreachable master only (the local store must stay untouched)"]
